@@ -52,7 +52,15 @@ Definition complete_spec (c : jcase) (obs : list out_row) : bool :=
             then has_pair (fst l) (fst r) obs else true
           else if (len x =? 0) && (len y =? 0) then true
           else if qualifies m (j_op c) (j_t c) x y then has_pair (fst l) (fst r) obs else true
-      | _ => true
+      | EFilter k m =>
+          if String.eqb m "EDIT_DISTANCE" then
+            if cmp_op "<=" (ed_dist l r) (j_t c) && share x y
+            then has_pair (fst l) (fst r) obs else true
+          else if (len x =? 0) && (len y =? 0) then true
+          else if qualifies m ">=" (j_t c) x y then has_pair (fst l) (fst r) obs else true
+      | EOverlapFilter =>
+          if (0 <? overlap_sets x y) && cmp_op (j_op c) (PInt (overlap_sets x y)) (j_t c)
+          then has_pair (fst l) (fst r) obs else true
       end
     else true) (j_R c)) (j_L c).
 
@@ -75,7 +83,17 @@ Definition sound_row (c : jcase) (obs : list out_row) (o : out_row) : bool :=
             else
               cmp_op (j_op c) (reported_score m x y) (j_t c) &&
               (if j_with_score c then score_same s (reported_score m x y) else true)
-        | _ => true
+        | EFilter k m =>
+            (* C09 / C14: both-empty pairs only when admitted; prefix/position candidates share a token *)
+            if (len x =? 0) && (len y =? 0) then
+              j_allow_empty c && negb (String.eqb m "OVERLAP") && negb (String.eqb m "EDIT_DISTANCE")
+            else match k with
+                 | KPrefix | KPosition => share x y
+                 | _ => true
+                 end
+        | EOverlapFilter =>
+            (0 <? overlap_sets x y) && cmp_op (j_op c) (PInt (overlap_sets x y)) (j_t c) &&
+            (if j_with_score c then score_same s (PInt (overlap_sets x y)) else true)
         end
       else j_allow_missing c && score_same s PNone
   | _, _ => false
